@@ -5,4 +5,4 @@ package main
 const haveLexShim = false
 
 func lexAdvance(s int, r rune) int { return -1 }
-func lexEvalState(s int) string  { return "" }
+func lexEvalState(s int) string    { return "" }
